@@ -301,6 +301,20 @@ def r1(ctx: Ctx) -> None:
                "no public storage method touches the filesystem with an unresolved path", text=m.name)
 
 
+def inside_branches(ctx: Ctx, f: FunctionInfo) -> List[Node]:
+    """Branches on the containment flag, found by ROLE: a Name whose reaching definitions include the commonpath equality."""
+    g = ctx.cfg(f)
+    out = []
+    for b in g.nodes:
+        if b.kind == "branch" and isinstance(b.ast, ast.Name):
+            defs = ctx.rd(f).reaching(b.id, b.ast.id)
+            if any(isinstance(g.nodes[d].ast, ast.Assign) and "commonpath" in norm_text(g.nodes[d].ast.value) for d in defs):
+                out.append(b)
+        elif b.kind == "branch" and b.ast is not None and "commonpath" in norm_text(b.ast):
+            out.append(b)
+    return out
+
+
 def r2(ctx: Ctx) -> None:
     ctx.rule("C17.R2", "sanitiser shape: returns only after commonpath([realpath(base), realpath(joined)]) == realpath(base); "
              "else ValueError; absolute inputs re-rooted; no string-prefix containment", 6)
@@ -319,9 +333,13 @@ def r2(ctx: Ctx) -> None:
             ctx.ob("C17.R2", f, "both operands are canonical (realpath / _real_base_path)", c, ok,
                    f"operands derive from {sorted(x for x in fns if 'path' in x)}")
         # the return of the resolved path is dominated by the inside-test; the not-inside edge raises ValueError
-        brs = [b for b in g.nodes if b.kind == "branch" and isinstance(b.ast, ast.Name) and b.ast.id == "inside"]
-        rets = [n for n in g.nodes if n.kind == "return" and n.id in g.reachable() and n.ast.value is not None  # type: ignore[union-attr]
-                and any(nm in (var_hint,) for nm in names_in(n.ast.value))]  # type: ignore[union-attr]
+        brs = inside_branches(ctx, f)
+        rets = []
+        for n in g.nodes:
+            if n.kind == "return" and n.id in g.reachable() and isinstance(n.ast.value, ast.Name):  # type: ignore[union-attr]
+                ds = ctx.rd(f).reaching(n.id, n.ast.value.id)  # type: ignore[union-attr]
+                if ds and all(isinstance(g.nodes[d].ast, ast.Assign) and "os.path.realpath" in norm_text(g.nodes[d].ast.value) for d in ds):
+                    rets.append(n)
         if not brs or not rets:
             ctx.ob("C17.R2", f, "inside-test guards the return", None, False, "anchor moved: `inside` branch / resolved return not found")
             continue
@@ -335,7 +353,8 @@ def r2(ctx: Ctx) -> None:
             ctx.ob("C17.R2", f, "the resolved path is returned only when inside; outside raises ValueError", r, ok,
                    "escaping paths are rejected with an error, not silently resolved elsewhere")
         # `inside` is the commonpath equality (and False on ValueError)
-        defs = [n for n in g.nodes if n.kind == "stmt" and isinstance(n.ast, ast.Assign) and norm_text(n.ast.targets[0]) == "inside"]
+        flag_names = {b.ast.id for b in brs if isinstance(b.ast, ast.Name)}
+        defs = [n for n in g.nodes if n.kind == "stmt" and isinstance(n.ast, ast.Assign) and norm_text(n.ast.targets[0]) in flag_names]
         ok = any("commonpath" in norm_text(d.ast.value) and "==" in norm_text(d.ast.value) for d in defs) and \
             all(("commonpath" in norm_text(d.ast.value)) or (isinstance(d.ast.value, ast.Constant) and d.ast.value.value is False) for d in defs)  # type: ignore[union-attr]
         ctx.ob("C17.R2", f, "`inside` is the commonpath equality, False on error", defs[0] if defs else None, ok, "")
@@ -344,7 +363,7 @@ def r2(ctx: Ctx) -> None:
     for q in ("storage_backend.LocalStorageBackend._resolve_path", "data_operations.DataFileManager._get_arrow_path"):
         f = ctx.fn(q)
         g = ctx.cfg(f)
-        inside_b = [b for b in g.nodes if b.kind == "branch" and isinstance(b.ast, ast.Name) and b.ast.id == "inside"]
+        inside_b = inside_branches(ctx, f)
         local_b = [b for b in g.nodes if b.kind == "branch" and "LocalStorageBackend" in b.text]
         for r in [n for n in g.nodes if n.kind == "return" and n.id in g.reachable()]:
             if local_b:
@@ -384,7 +403,9 @@ def r2(ctx: Ctx) -> None:
             bad.append(j)
     ctx.ob("C17.R2", rp, "absolute inputs are re-rooted under the base", bad[0] if bad else (joins[0] if joins else None), bool(joins) and not bad,
            "os.path.join(base, '/etc/passwd') would discard the base: the leading slash is stripped first")
-    fin = [n for n in g.nodes if n.kind == "stmt" and isinstance(n.ast, ast.Assign) and norm_text(n.ast.targets[0]) == "full_path"]
+    rnames = {n.ast.value.id for n in g.nodes if n.kind == "return" and n.id in g.reachable() and isinstance(n.ast.value, ast.Name)}  # type: ignore[union-attr]
+    fin = [n for n in g.nodes if n.kind == "stmt" and isinstance(n.ast, ast.Assign) and norm_text(n.ast.targets[0]) in rnames]
+    jn = {norm_text(j.ast) for j in joins}
     ctx.ob("C17.R2", rp, "the joined path is canonicalised with realpath", fin[0] if fin else None,
            bool(fin) and all("os.path.realpath" in norm_text(x.ast.value) for x in fin), "resolves '..' and symlinks")  # type: ignore[union-attr]
 
